@@ -24,8 +24,8 @@ import (
 )
 
 const (
-	serial  = uint32(405419896)
-	T       = time.Second
+	serial   = uint32(405419896)
+	T        = time.Second
 	ctrlAddr = "192.168.1.100:60000"
 )
 
